@@ -51,6 +51,65 @@ def M_bm_extend(it, ctx, args, st):
     yield st, UNIT
 
 
+def M_buf_remaining(it, ctx, args, st):
+    yield st, sval(st, args[0]).len
+
+
+def M_buf_has_remaining(it, ctx, args, st):
+    yield st, sval(st, args[0]).len != 0
+
+
+def M_slice_index_mut_range(it, ctx, args, st):
+    """<[u8] as IndexMut<RangeTo/Range/RangeFrom>>::index_mut: a view (pointer to the whole slice + bounds) that copy_to_slice /
+    copy_from_slice write through"""
+    sl = args[0]
+    r = args[1]
+    kind = ctx.callee.key
+    v = sval(st, sl)
+    if 'RangeTo' in kind:
+        lo, hi = bv(0), r.fields[0]
+    elif 'RangeFrom' in kind:
+        lo, hi = r.fields[0], v.len
+    else:
+        lo, hi = r.fields[0], r.fields[1]
+    for s2, ok in fork_bool(it, st, z3.And(z3.ULE(lo, hi), z3.ULE(hi, v.len))):
+        yield s2, (Agg('SubSliceMut', (sl, lo, hi)) if ok else Panic('range end index out of range for slice', ctx.fr.fn.name))
+
+
+def M_buf_copy_to_slice(it, ctx, args, st):
+    """Buf::copy_to_slice(&mut self, dst): dst is filled from the front of self, self advances by dst.len(); panics if self is shorter"""
+    src_p, dst = args[0], args[1]
+    src = sval(st, src_p)
+    if isinstance(dst, Agg) and dst.name == 'SubSliceMut':
+        base_p, lo, hi = dst.fields
+    else:
+        base_p, lo, hi = dst, bv(0), sval(st, dst).len
+    n = z3.simplify(hi - lo)
+    for s2, ok in fork_bool(it, st, z3.ULE(n, src.len)):
+        if not ok:
+            yield s2, Panic('Buf::copy_to_slice: not enough remaining bytes', ctx.fr.fn.name)
+            continue
+        base = sval(s2, base_p)
+        new = []
+        for i, old in enumerate(base.bytes):
+            off = bv(i) - lo
+            inside = z3.And(z3.UGE(bv(i), lo), z3.ULT(bv(i), hi))
+            new.append(z3.simplify(z3.If(inside, bstr_byte(src, off), old)))
+        tgt = base_p
+        while isinstance(s2.deref(tgt), Ptr):
+            tgt = s2.deref(tgt)
+        s2.write(tgt, BStr(tuple(new), base.len))
+        sp = src_p
+        while isinstance(s2.deref(sp), Ptr):
+            sp = s2.deref(sp)
+        s2.write(sp, bstr_slice(src, n, src.len))
+        yield s2, UNIT
+
+
+def M_io_error_new(it, ctx, args, st):
+    yield st, Agg('std::io::Error', (args[0],))
+
+
 def M_bm_put_u8(it, ctx, args, st):
     bm_append(st, args[0], BStr((args[1],), bv(1)))
     yield st, UNIT
@@ -181,6 +240,10 @@ MODELS = [
     (r'bytes::BytesMut::freeze', M_bm_freeze),
     (r'<bytes::BytesMut as bytes::BufMut>::put_u8|bytes::BytesMut::put_u8', M_bm_put_u8), (r'<bytes::BytesMut as bytes::BufMut>::put_slice', M_bm_extend),
     (r'percent_encoding::percent_encode_byte', M_percent_encode_byte),
+    (r'<bytes::Bytes(Mut)? as bytes::Buf>::remaining', M_buf_remaining), (r'<bytes::Bytes(Mut)? as bytes::Buf>::has_remaining', M_buf_has_remaining),
+    (r'<bytes::Bytes(Mut)? as bytes::Buf>::copy_to_slice', M_buf_copy_to_slice),
+    (r'<\[u8\] as std::ops::IndexMut<std::ops::Range(?:To|From)?<usize>>>::index_mut|std::slice::index::<impl std::ops::IndexMut<.*> for \[u8\]>::index_mut', M_slice_index_mut_range),
+    (r'std::io::Error::new::<.*>', M_io_error_new),
     (r'<bytes::Bytes as std::convert::From<.*>>::from|bytes::Bytes::copy_from_slice|bytes::Bytes::from_static', M_bytes_from),
     (r'<bytes::Bytes as std::clone::Clone>::clone', M_bytes_clone),
     (r'percent_encoding::AsciiSet::add', M_asciiset_add), (r'percent_encoding::AsciiSet::remove', M_asciiset_remove),
